@@ -72,7 +72,8 @@ Theorem C38_write_results_01 : forall e ops fr res s,
 Proof. exact write_results_01. Qed.
 Print Assumptions C38_write_results_01.
 
-(* THE central statement.  wf_C38 i (executable): the input decodes ([method bufsz hop script], method 0/1, bufsz > 0),
+(* THE central statement.  wf_C38 i (executable): the input decodes ([method bufsz hop script] with an optional flow-control
+   script [w g], w, g > 0; method 0/1/2, bufsz > 0),
    the hop list contains the canonical spelling of the five connection-specific names (true of HopHeaders), every
    WriteHeader code is in 100..999.  On every such input the model's own observation run_C38 i satisfies the executable
    predicate prop_C38 that the harness evaluates on the frames decoded from the real server: :status first and equal to
@@ -103,6 +104,21 @@ Example C38_trailer_key_collision :
   /\ last (frames_of (with_perm 0 env_get) ops) (FD false []) = FH true [(to_lower b_Foo, [50])]
   /\ last (frames_of (with_perm 1 env_get) ops) (FD false []) = FH true [(to_lower b_Foo, [49])].
 Proof. exact collision_witness. Qed.
+
+(* The scheduler pass (writesched.go takeFrom): the frames above are the handler's DATA writes; on the wire each write is
+   cut into pieces of at most min(stream window, 16384) bytes (wire_frames g w, for a client that starts with window w
+   and grants g whenever its window reaches 0).  The pass keeps the stream well-shaped: if stream_ok holds of the
+   writes it holds of the wire frames -- in particular END_STREAM stays on the last piece only and the bytes are the
+   same.  (run_C38 applies the pass; C38_central above is stated about its result.) *)
+Theorem C38_scheduler_pass_preserves_stream : forall g w status body fs,
+  stream_ok status body fs = true -> stream_ok status body (wire_frames g w fs) = true.
+Proof. exact stream_ok_wire. Qed.
+Print Assumptions C38_scheduler_pass_preserves_stream.
+
+Example C38_wire_example :
+  wire_frames 3 4 [FH false []; FD true [1;2;3;4;5;6;7;8;9;10]]
+  = [FH false []; FD false [1;2;3;4]; FD false [5;6;7]; FD true [8;9;10]].
+Proof. exact wire_example. Qed.
 
 (* a corpus case (declared, unset trailer) satisfies wf_C38 *)
 Example C38_corpus_case_wf : wf_C38 corpus_case = true /\ prop_C38 corpus_case (run_C38 corpus_case) = true.
